@@ -16,6 +16,7 @@ import (
 	"go.uber.org/dig"
 
 	"verif/harness/cat"
+	"verif/harness/lib"
 	"verif/harness/univ"
 )
 
@@ -82,12 +83,18 @@ type Entry struct {
 	MK  []string `json:"mk"`
 	Log []Event  `json:"log"`
 
+	// predicted only
+	Viz    *VizPic    `json:"viz,omitempty"`
+	VizErp *VizErrPic `json:"vizerrpic,omitempty"`
+
 	// observed only
 	Crash    string `json:"crash,omitempty"`    // a panic that was not injected escaped the call
 	ErrText  string `json:"errtext,omitempty"`  // for diagnostics only, never compared
 	Class    string `json:"class,omitempty"`    // error classification details (C13)
 	Info     *Info  `json:"info,omitempty"`     // Fill*Info result
 	VizErr   string `json:"vizerr,omitempty"`   // Visualize / String misbehaved after this op
+	Dot      string `json:"dot,omitempty"`      // Visualize output after this op
+	DotErr   string `json:"doterr,omitempty"`   // Visualize(VisualizeError(err)) output for the error of this op
 	Snap     *Snap  `json:"snap,omitempty"`     // state after the op
 	SnapEq   bool   `json:"snapeq"`             // rejected registration: raw state before == after
 	SnapDiff string `json:"snapdiff,omitempty"` // what differs otherwise
@@ -105,20 +112,22 @@ type Runner struct {
 	Opts cat.Opts
 	Plan map[planKey]string // outcome of execution n of function f ("ok" if absent)
 
-	c        *dig.Container
-	scopes   map[string]*dig.Scope
-	advance  func(time.Duration)
-	execs    map[string]int
-	log      []Event
-	inReg    bool
-	regExec  bool
-	fnOf     map[uintptr]string // closure id -> function id
-	lastErr  error
-	NoSnap   bool
-	NoViz    bool
-	infos    map[string]*Info
-	sentinel map[planKey]*ExecErr
-	cbs      map[string]int
+	c         *dig.Container
+	scopes    map[string]*dig.Scope
+	advance   func(time.Duration)
+	execs     map[string]int
+	log       []Event
+	inReg     bool
+	regExec   bool
+	fnOf      map[uintptr]string // closure id -> function id
+	lastErr   error
+	NoSnap    bool
+	NoViz     bool
+	infos     map[string]*Info
+	sentinel  map[planKey]*ExecErr
+	cbs       map[string]int
+	libBodies map[string]func([]reflect.Value) []reflect.Value
+	libOf     map[string]string // catalog function -> library function it is bound to
 	// RandPlan, when set, decides outcomes not in Plan (recorded into Plan)
 	RandPlan func(f string, n int) string
 }
@@ -134,7 +143,7 @@ type api interface {
 func New(c *cat.Catalog, o cat.Opts) *Runner {
 	r := &Runner{Cat: c, Opts: o, Plan: map[planKey]string{}, scopes: map[string]*dig.Scope{},
 		execs: map[string]int{}, fnOf: map[uintptr]string{}, infos: map[string]*Info{},
-		sentinel: map[planKey]*ExecErr{}, cbs: map[string]int{}}
+		sentinel: map[planKey]*ExecErr{}, cbs: map[string]int{}, libOf: map[string]string{}}
 	clk, adv := dig.VerifMockClock()
 	r.advance = adv
 	opts := []dig.Option{clk}
@@ -581,11 +590,13 @@ func (r *Runner) postOp(e *Entry) {
 		if err := dig.Visualize(r.c, &b); err != nil {
 			e.VizErr = "Visualize error: " + err.Error()
 		}
+		e.Dot = b.String()
 		if r.lastErr != nil {
-			b.Reset()
-			if err := dig.Visualize(r.c, &b, dig.VisualizeError(r.lastErr)); err != nil {
+			var b2 bytes.Buffer
+			if err := dig.Visualize(r.c, &b2, dig.VisualizeError(r.lastErr)); err != nil {
 				e.VizErr = "Visualize(err) error: " + err.Error()
 			}
+			e.DotErr = b2.String()
 		}
 		_ = r.c.String()
 		for _, s := range r.scopes {
@@ -731,5 +742,71 @@ func (r *Runner) Do(op, f, s string) (*Entry, error) {
 func (r *Runner) extraProvideOpts(f string) []dig.ProvideOption { return nil }
 
 func (r *Runner) buildLib(id string) (interface{}, *layout, error) {
-	return nil, nil, fmt.Errorf("declared-function library not built yet")
+	f := r.Cat.Fns[id]
+	fn, ok := lib.Funcs[f.Enc.Lib]
+	if !ok {
+		return nil, nil, fmt.Errorf("no library function %q", f.Enc.Lib)
+	}
+	l, err := layoutFromFunc(f, reflect.TypeOf(fn))
+	if err != nil {
+		return nil, nil, err
+	}
+	if r.libBodies == nil {
+		r.libBodies = map[string]func([]reflect.Value) []reflect.Value{}
+	}
+	r.libBodies[f.Enc.Lib] = r.body(id, l)
+	lib.Dispatch = func(name string, args []reflect.Value) []reflect.Value {
+		b, ok := r.libBodies[name]
+		if !ok {
+			panic("library function " + name + " called but not bound to the current container")
+		}
+		return b(args)
+	}
+	r.libOf[id] = f.Enc.Lib
+	return fn, l, nil
+}
+
+// layoutFromFunc derives the layout of a declared function from its Go type.
+func layoutFromFunc(f *cat.Fn, ft reflect.Type) (*layout, error) {
+	l := &layout{fn: f, hasErr: true}
+	idx := 0
+	for i := 0; i < ft.NumIn(); i++ {
+		t := ft.In(i)
+		if t.Kind() == reflect.Struct && t.NumField() > 0 && t.Field(0).Type == inType {
+			g := pgroup{obj: true, typ: t}
+			for j := 1; j < t.NumField(); j++ {
+				g.idxs = append(g.idxs, idx)
+				idx++
+			}
+			l.ps = append(l.ps, g)
+			continue
+		}
+		l.ps = append(l.ps, pgroup{idxs: []int{idx}, typ: t})
+		idx++
+	}
+	if idx != len(f.Ps) {
+		return nil, fmt.Errorf("library function has %d flat parameters, the catalog entry %d", idx, len(f.Ps))
+	}
+	idx = 0
+	for i := 0; i < ft.NumOut(); i++ {
+		t := ft.Out(i)
+		if t == errType {
+			continue
+		}
+		if t.Kind() == reflect.Struct && t.NumField() > 0 && t.Field(0).Type == outType {
+			g := rgroup{obj: true, typ: t}
+			for j := 1; j < t.NumField(); j++ {
+				g.idxs = append(g.idxs, idx)
+				idx++
+			}
+			l.rs = append(l.rs, g)
+			continue
+		}
+		l.rs = append(l.rs, rgroup{idxs: []int{idx}, typ: t})
+		idx++
+	}
+	if idx != len(f.Rs) {
+		return nil, fmt.Errorf("library function has %d flat results, the catalog entry %d", idx, len(f.Rs))
+	}
+	return l, nil
 }
